@@ -1,7 +1,104 @@
 import ASV.Drv.J
+import ASV.Model.ProtDna
+import ASV.Spec.ProtDna
 namespace ASV.Drv.C09
-open Lean ASV ASV.Drv
+open Lean ASV ASV.Drv ASV.ProtDna
 
-def handle (_j : Json) : R Json := throw "C09: no model yet"
+def resJson {α} (f : α → Json) : Res α → Json
+  | .ok a => jObj [("ok", f a)]
+  | .valueError => jObj [("err", Json.str "value-error")]
+  | .assertion => jObj [("err", Json.str "assertion")]
+
+def optLoc (j : Json) (k : String) : R (Option Loc) :=
+  match j.getObjVal? k with
+  | .ok .null => pure none
+  | .ok v => do return some (← locOfJson v)
+  | .error _ => pure none
+
+def optLocJson : Option Loc → Json
+  | none => Json.null
+  | some l => locToJson l
+
+/-- verdict of the executable spec on an implementation location (absent = nothing to judge) -/
+def coversJ (l : Loc) (r : Option Loc) (a b : Int) : Json :=
+  match r with
+  | none => Json.null
+  | some r => toJson (coversSlice l r a.toNat b.toNat)
+
+def sliceJ (l : Loc) (a b : Int) : Json := jInts (sliceL (bases l) a.toNat b.toNat)
+
+def handle (j : Json) : R Json := do
+  let kind ← strF j "kind"
+  let l ← locOfJson (← fld j "loc")
+  let wf := geneWF l
+  let common := [("scope", toJson wf), ("len", toJson l.len), ("nbases", toJson (bases l).length),
+                 ("bridges", toJson (bridgesOrigin l))]
+  match kind with
+  | "sub" =>
+    let s ← intF j "s"; let e ← intF j "e"
+    let impl ← optLoc j "impl"
+    let guard := decide (0 ≤ s) && decide (s < e) && decide (e ≤ l.len / 3)
+    let feature := boolFD j "feature" false     -- a motif/domain feature is constructed from the location
+    let m := if feature then featureAt (subLocation l s e) else subLocation l s e
+    let refused := match subLocation l s e with | .ok r => containsOverlappingExons r | _ => false
+    return jObj (common ++ [
+      ("model", resJson locToJson m), ("unrepresentable", toJson refused),
+      ("spec", jObj [("guard", toJson guard), ("slice", sliceJ l (3 * s) (3 * e)),
+                     ("covers", coversJ l impl (3 * s) (3 * e))])])
+  | "offsets" =>
+    let s ← intF j "s"; let e ← intF j "e"
+    let impl ← optLoc j "impl"
+    let guard := decide (0 ≤ s) && decide (s < e) && decide (e ≤ l.len)
+    return jObj (common ++ [
+      ("model", resJson locToJson (subLocationFromOffsets l s e)),
+      ("spec", jObj [("guard", toJson guard), ("slice", sliceJ l s e), ("covers", coversJ l impl s e)])])
+  | "tta" =>
+    let off ← intF j "off"
+    let impl ← optLoc j "impl"
+    let guard := decide (0 ≤ off) && decide (off + 3 ≤ l.len)
+    let refused := match subLocationFromOffsets l off (off + 3) with | .ok r => containsOverlappingExons r | _ => false
+    return jObj (common ++ [
+      ("model", resJson locToJson (ttaLocation l off)), ("unrepresentable", toJson refused),
+      ("spec", jObj [("guard", toJson guard), ("slice", sliceJ l off (off + 3)),
+                     ("covers", coversJ l impl off (off + 3))])])
+  | "convert" =>
+    let s ← intF j "s"; let e ← intF j "e"
+    let guard := decide (0 ≤ s) && decide (s < e) && decide (e ≤ l.len / 3)
+    let sl := sliceL (bases l) (3 * s).toNat (3 * e).toNat
+    return jObj (common ++ [
+      ("model", resJson (fun (p : Int × Int) => jInts [p.1, p.2]) (convertProteinToDna s e l)),
+      ("spec", jObj [("guard", toJson guard), ("simple", toJson (!l.isCompound)),
+                     ("minmax", jInts [minList sl, maxList sl + 1])])])
+  | "frameshift" =>
+    let cs ← intF j "cs"; let undo ← boolF j "undo"
+    let impl ← optLoc j "impl"
+    let m := frameshift l cs undo
+    let back : Json := match m with
+      | .ok r => resJson locToJson (frameshift r cs (!undo))
+      | _ => Json.null
+    let k := (cs - 1).toNat
+    let specOk : Json := match impl with
+      | none => Json.null
+      | some r => toJson (if undo then bases l == (bases r).drop k else bases r == (bases l).drop k)
+    let guard := frameGuard l cs undo
+    return jObj (common ++ [
+      ("model", resJson locToJson m), ("back", back),
+      ("spec", jObj [("guard", toJson guard), ("shifted", specOk)])])
+  | "prepeptide" =>
+    let ld ← intF j "leader"; let tl ← intF j "tail"
+    let il ← optLoc j "impl_leader"; let ic ← optLoc j "impl_core"; let it ← optLoc j "impl_tail"
+    let total := l.len / 3
+    let guard := decide (0 ≤ ld) && decide (0 ≤ tl) && decide (ld + tl < total)
+    let m := prepeptideSections l ld tl
+    return jObj (common ++ [
+      ("model", resJson (fun (x : Option Loc × Loc × Option Loc) =>
+          jObj [("leader", optLocJson x.1), ("core", locToJson x.2.1), ("tail", optLocJson x.2.2)]) m),
+      ("spec", jObj [("guard", toJson guard),
+                     ("leader", coversJ l il 0 (3 * ld)),
+                     ("core", coversJ l ic (3 * ld) (3 * (total - tl))),
+                     ("tail", coversJ l it (3 * (total - tl)) (3 * total)),
+                     ("slices", jArr [sliceJ l 0 (3 * ld), sliceJ l (3 * ld) (3 * (total - tl)),
+                                      sliceJ l (3 * (total - tl)) (3 * total)])])])
+  | k => throw s!"C09: unknown kind {k}"
 
 end ASV.Drv.C09
